@@ -15,6 +15,7 @@ package main
 import (
 	"fmt"
 	"strings"
+	"sync"
 
 	"github.com/256dpi/gomqtt/topic"
 
@@ -571,4 +572,90 @@ func runC04(c *hx.Ctx) {
 	c04Exhaustive(c, depth)
 	c04Pairs(c, c04Corpus(c))
 	c04Random(c, sets)
+	c04Readers(c)
+}
+
+// c04Readers: lookups on an UNCHANGING tree answer the same whatever other lookups run at the same
+// time (the statement is about every set and every name; a lookup is a function of both).  The
+// expected answers are computed by one goroutine before the others start; then 8 goroutines ask
+// Match/Search (compared with the expected answer) while half of them also fire the first-match
+// variants in between.  Readers only: no operation changes the tree (seed C04-10: a per-tree early-stop
+// marker shared by concurrent readers).
+func c04Readers(c *hx.Ctx) {
+	filters := []string{"a/+", "a/#", "#", "a/b", "+/b", "+/+", "a/b/#", "+/#", "a/+/c", "a/b/c", "b", "+"}
+	names := []string{"a/b", "a", "a/b/c", "b", "b/b", "a/c", "x/y/z", "a/b/c/d"}
+	mt, st := topic.NewStandardTree(), topic.NewStandardTree()
+	for i, f := range filters {
+		mt.Add(f, i+1)
+	}
+	for i, n := range names {
+		st.Add(n, i+1)
+	}
+	wantM := map[string]string{}
+	wantS := map[string]string{}
+	for _, n := range names {
+		wantM[n] = vals(mt.Match(n))
+	}
+	for _, f := range filters {
+		wantS[f] = sortedVals(st.Search(f)) // map iteration order: compared as sets
+	}
+	rounds := 300
+	if c.Thorough() {
+		rounds = 3000
+	}
+	var mu sync.Mutex
+	bad := ""
+	checks := 0
+	var wg sync.WaitGroup
+	for g := 0; g < 8; g++ {
+		wg.Add(1)
+		go func(g int) {
+			defer wg.Done()
+			n := 0
+			for r := 0; r < rounds; r++ {
+				for _, nm := range names {
+					if g%2 == 1 {
+						mt.MatchFirst(nm)
+					}
+					if got := vals(mt.Match(nm)); got != wantM[nm] {
+						mu.Lock()
+						if bad == "" {
+							bad = fmt.Sprintf("Match(%q) answered %s while other lookups ran, %s alone (tree unchanged, filters %v)", nm, got, wantM[nm], filters)
+						}
+						mu.Unlock()
+					}
+					n++
+				}
+				for _, f := range filters {
+					if g%2 == 1 {
+						st.SearchFirst(f)
+					}
+					if got := sortedVals(st.Search(f)); got != wantS[f] {
+						mu.Lock()
+						if bad == "" {
+							bad = fmt.Sprintf("Search(%q) answered %s while other lookups ran, %s alone (tree unchanged, names %v)", f, got, wantS[f], names)
+						}
+						mu.Unlock()
+					}
+					n++
+				}
+				mu.Lock()
+				stop := bad != ""
+				mu.Unlock()
+				if stop {
+					break
+				}
+			}
+			mu.Lock()
+			checks += n
+			mu.Unlock()
+		}(g)
+	}
+	wg.Wait()
+	if bad != "" {
+		c.Emit("direct readers FAIL %s", bad)
+	} else {
+		c.Emit("direct readers ok %d lookups by 8 goroutines", checks)
+	}
+	c.Stat("reader_lookups", checks)
 }
